@@ -18,9 +18,9 @@ Conventions
   (`SkyCoord.to_string`, `Quantity.to_string`, `Angle.to_string`), which is a parameter
   `sky : ℚ → ℚ` of the model (law used by the theorems: `|sky x − x| ≤ ½·10⁻ᵖ`; the driver
   instantiates it with `Dec.roundTo p`).
-* `Cfg` records which of the defects found by C09 (known_findings/C09.json) are repaired in the
-  code being modelled; `codeCfg` is the tree as it is now.  After the lead applies
-  proposed_fixes/F3_c09.diff, F4_c09.diff, F5_c09.diff flip the corresponding flag in `codeCfg`.
+* `Cfg` records which of the writer defects found by C09 (known_findings/C09.json: F3, F4, F5) are
+  repaired in the code being modelled; `codeCfg` is the tree as it is now (all three repaired:
+  d58a058, 80f2f4f, 193fdcf).  A reverted fix shows up as a correspondence disagreement.
 -/
 import RegionsVerif.Impl.Decimal
 
@@ -38,7 +38,10 @@ structure Cfg where
   orderedGlobal : Bool
 deriving DecidableEq, Repr
 
-def Cfg.current : Cfg := ⟨false, false, false⟩
+/-- F3 = d58a058, F4 = 80f2f4f, F5 = 193fdcf are applied in /repo. -/
+def Cfg.current : Cfg := ⟨true, true, true⟩
+/-- the writer before those three commits (kept for the regression witnesses of `Props/C09`). -/
+def Cfg.unrepaired : Cfg := ⟨false, false, false⟩
 def Cfg.repaired : Cfg := ⟨true, true, true⟩
 
 /-- the code in /repo as of this check. -/
